@@ -186,7 +186,7 @@ class SLoop(VLoop):
             with self._lk:
                 pool = list(self._pool)
             if pool:
-                if self.replay is not None and self.decisions < len(self.replay):
+                if self.replay is not None and self.decisions < len(self.replay) and all(0 <= i < len(pool) for i in self.replay[self.decisions]) and self.replay[self.decisions]:
                     order = list(self.replay[self.decisions])
                 else:
                     order = self.strategy(self, [(p[0], p[1]) for p in pool])
